@@ -83,7 +83,7 @@ fn g(op: Op) -> OpG {
 }
 
 fn one(ops: Vec<Op>) -> Batch {
-    Batch { chains: vec![Chain { lane: 0, ops: ops.into_iter().map(g).collect() }] }
+    Batch { chains: vec![Chain { lane: 0, ops: ops.into_iter().map(g).collect(), hard: false }] }
 }
 
 /// One small scenario per constructor (success and failure paths), so that a defect confined to
